@@ -71,6 +71,25 @@ def cbox(bounds):
     return clist(['(%s, %s)' % (cq(float(lo)), cq(float(hi))) for lo, hi in bounds])
 
 
+def cnames(names):
+    return clist([cstr(n) for n in names])
+
+
+def cdict(case):
+    """the user's bounds dict as an association list in the key order the user wrote"""
+    by_name = dict(zip(case['names'], case['bounds']))
+    return clist(['(%s, (%s, %s))' % (cstr(n), cq(float(by_name[n][0])), cq(float(by_name[n][1]))) for n in case['dict_order']])
+
+
+def user_dict(case):
+    """bounds dict handed to the code: keys inserted in case['dict_order'], each name bound to ITS interval"""
+    by_name = dict(zip(case['names'], case['bounds']))
+    return {n: tuple(by_name[n]) for n in case['dict_order']}
+
+
+NAME_POOL = ['mu', 'a', 't2', 'b1', 'sigma', 'k', 'z', 'theta', 'Beta', 'x10', 'x9']
+
+
 def target_fn(rows):
     """the (deterministic) target of the toy model as a function of the simulated parameter rows"""
     return np.log(raw_fn(rows))
@@ -78,15 +97,16 @@ def target_fn(rows):
 
 def raw_fn(rows):
     rows = np.asarray(rows, dtype=float)
-    centre = np.array([0.3, -0.2])[:rows.shape[1]]
+    centre = np.array([0.3, -0.2, 0.1])[:rows.shape[1]]
     return np.sum((rows - centre) ** 2, axis=1) + 0.1
 
 
-def make_gp(dim, bounds, n_ev, seed, noise_var=None):
+def make_gp(case, n_ev, seed):
+    """surrogate over case['names'] whose bounds dict is written in case['dict_order']"""
     from elfi.methods.bo.gpy_regression import GPyRegression
-    names = ['t%d' % (i + 1) for i in range(dim)]
+    names, bounds = list(case['names']), case['bounds']
     rs = np.random.RandomState(seed)
-    gp = GPyRegression(names, bounds={n: tuple(b) for n, b in zip(names, bounds)}, max_opt_iters=5)
+    gp = GPyRegression(names, bounds=user_dict(case), max_opt_iters=5)
     if n_ev:
         X = np.column_stack([rs.uniform(lo, hi, n_ev) for lo, hi in bounds])
         Y = target_fn(X) + 0.05 * rs.randn(n_ev)
@@ -133,9 +153,12 @@ class Spy:
 SIMLOG = []
 
 
+SIMCOLS = []        # position of parameter_names[j] among the simulator's positional arguments
+
+
 def _sim(*args, batch_size=1, random_state=None, meta=None):
     cols = [np.asarray(a, dtype=float).reshape(-1) for a in args]
-    rows = np.column_stack(cols)
+    rows = np.column_stack([cols[k] for k in SIMCOLS])      # columns in model.parameter_names order
     SIMLOG.append((int(meta['batch_index']), rows.copy()))
     return raw_fn(rows)
 
@@ -144,14 +167,19 @@ def _target_op(y):
     return np.log(y)
 
 
-def build_model(dim, bounds):
+def build_model(names, bounds, create_order=None):
+    """toy model; the parameter nodes are created (and handed to the simulator) in create_order"""
     import elfi
     m = elfi.ElfiModel()
+    by_name = dict(zip(names, bounds))
+    create_order = list(create_order or names)
     ps = []
-    for i, (lo, hi) in enumerate(bounds):
+    for n in create_order:
+        lo, hi = by_name[n]
         # priors whose support is inside the bounds (initial evidence is sampled from the prior)
         w = hi - lo
-        ps.append(elfi.Prior('uniform', lo + 0.1 * w, 0.8 * w, model=m, name='t%d' % (i + 1)))
+        ps.append(elfi.Prior('uniform', lo + 0.1 * w, 0.8 * w, model=m, name=n))
+    SIMCOLS[:] = [create_order.index(n) for n in names]
     s = elfi.Simulator(_sim, *ps, model=m, name='sim')
     s.uses_meta = True
     elfi.Operation(_target_op, s, model=m, name='d')
@@ -162,7 +190,7 @@ def build_model(dim, bounds):
 
 class C11(PropCheck):
     pid = 'C11'
-    header = ('From Coq Require Import List ZArith QArith Bool.\n'
+    header = ('From Coq Require Import String.\nFrom Coq Require Import List ZArith QArith Bool.\n'
               'From Elfi Require Import Base.Harness Sched.Sched Sched.Bo Num.Acq Sched.BoCase.\nImport ListNotations.\n'
               'Local Close Scope Q_scope.\n')
     case_type = 'BoCase.case'
@@ -190,11 +218,38 @@ class C11(PropCheck):
     # ---- generation ---------------------------------------------------------------------------
     def _box(self, r, dim):
         bs = []
+        if dim > 1 and r.random() < 0.5:
+            # clearly different intervals per parameter: pairwise disjoint, in a random assignment
+            self.bump('box=disjoint')
+            lo = r.choice([-4.0, -1.0, 0.0, r.uniform(-5, 0)])
+            for _ in range(dim):
+                w = r.choice([1.0, 2.0, 0.5, r.uniform(0.3, 3)])
+                bs.append([lo, lo + w])
+                lo = lo + w + r.choice([0.5, 1.0, 3.0])
+            r.shuffle(bs)
+            return bs
+        self.bump('box=free')
         for _ in range(dim):
             lo = r.choice([-1.0, 0.0, -2.5, 0.25, r.uniform(-3, 2)])
             w = r.choice([1.0, 2.0, 0.5, r.uniform(0.3, 3)])
             bs.append([lo, lo + w])
         return bs
+
+    def _names(self, r, dim, sort=False):
+        """dim distinct parameter names (GPyRegression takes them in any order; an ElfiModel sorts them)"""
+        names = r.sample(NAME_POOL, dim)
+        return sorted(names) if sort else names
+
+    def _order(self, r, names, key='dict_order'):
+        """a key order for a dict over the names: as parameter_names, reversed, or shuffled"""
+        o = list(names)
+        k = r.choice(['same', 'reversed', 'shuffled', 'shuffled'])
+        if k == 'reversed':
+            o.reverse()
+        elif k == 'shuffled':
+            r.shuffle(o)
+        self.bump('%s=%s' % (key, 'as_parameter_names' if o == list(names) else 'permuted'))
+        return o
 
     def _noise(self, r, dim):
         k = r.choice(['none', 'zero', 'scalar', 'dict', 'dictzero', 'big'])
@@ -218,22 +273,29 @@ class C11(PropCheck):
         n_min = 14 if quick else 250
         n_bo = 60 if quick else 1200
         n_grad = 10 if quick else 200
+        n_hist = 16 if quick else 300
         n_bad = 6 if quick else 30
         classes = ['lcbsc', 'lcbsc', 'lcbsc', 'maxvar', 'randmaxvar_metropolis', 'randmaxvar_metropolis', 'expintvar', 'uniform',
                    'lcbsc_prior', 'maxvar']   # RandMaxVar(sampler='nuts') dies under numpy 2 (float(1-element array) in mcmc._build_tree_nuts)
         for i in range(n_acq):
             cls = classes[i % len(classes)]
-            dim = r.choice([1, 2]) if cls != 'randmaxvar_nuts' else 1
+            dim = r.choice([1, 2, 2, 3]) if cls in ('lcbsc', 'lcbsc_prior', 'maxvar', 'uniform') else r.choice([1, 2, 2])
             nk, nz = self._noise(r, dim) if cls.startswith('lcbsc') else ('none', None)
-            case = dict(kind='acq', cls=cls, dim=dim, bounds=self._box(r, dim), noise=nz, n=r.choice([1, 1, 2, 3, 5]),
+            names = self._names(r, dim)
+            case = dict(kind='acq', cls=cls, dim=dim, names=names, bounds=self._box(r, dim), dict_order=self._order(r, names),
+                        noise=nz, noise_order=self._order(r, names, 'noise_dict_order') if isinstance(nz, list) else None,
+                        n=r.choice([1, 1, 2, 3, 5]),
                         t=r.choice([0, 1, 3, 7]), n_ev=r.choice([4, 6, 9]), seed=r.randrange(2 ** 31),
                         prior_shift=r.choice([-2.0, 0.0, 1.5]), prior_scale=r.choice([1.0, 3.0]))
             self.bump('acq=' + cls)
             self.bump('noise=' + nk)
+            self.bump('dim=%d' % dim)
             yield case
         for i in range(n_min):
             dim = r.choice([1, 2])
-            case = dict(kind='minimize', dim=dim, bounds=self._box(r, dim), method=r.choice(['L-BFGS-B', 'BFGS', 'CG', 'BFGS']),
+            names = ['x%d' % j for j in range(dim)]
+            case = dict(kind='minimize', dim=dim, names=names, dict_order=names, bounds=self._box(r, dim),
+                        method=r.choice(['L-BFGS-B', 'BFGS', 'CG', 'BFGS']),
                         centre=[r.uniform(-6, 6) for _ in range(dim)], prior=r.random() < 0.5, n_start=r.choice([1, 3, 5]),
                         seed=r.randrange(2 ** 31))
             self.bump('minimize=' + case['method'])
@@ -253,23 +315,65 @@ class C11(PropCheck):
                 init = 0
             maxp = r.choice([1, 2, 3, 4])
             n_more = r.choice([3, 4, 6, 8])
-            case = dict(kind='bo', dim=dim, bounds=self._box(r, dim), b=b, bpa=bpa, form=form, init=init,
+            names = self._names(r, dim, sort=True)        # model.parameter_names is alphabetical
+            create_order = list(names)
+            r.shuffle(create_order)
+            acq = r.choice(['uniform', 'uniform', 'uniform', 'lcbsc', 'lcbsc_noise', 'lcbsc_prior', 'default', 'default'])
+            case = dict(kind='bo', dim=dim, names=names, create_order=create_order, bounds=self._box(r, dim),
+                        dict_order=self._order(r, names), b=b, bpa=bpa, form=form, init=init,
                         n_evidence=max(1, init + n_more + r.choice([0, 1])), upd=r.choice([1, 2, 3, 5, 100, 100]),
                         async_acq=(i % 3 == 2), maxp=maxp, mode=r.choice(['lazy', 'eager', 'shuffle']),
                         oracle=[r.random() < r.choice([0.2, 0.5, 0.8]) for _ in range(200)],
-                        acq=r.choice(['uniform', 'uniform', 'uniform', 'lcbsc', 'lcbsc_noise', 'default']),
+                        acq=acq, tm=(r.choice(['given', 'default']) if acq == 'default' else 'given'),
+                        acq_noise=(r.choice(['scalar', 'dict']) if acq == 'default' else 'scalar'),
+                        pre_order=self._order(r, names + ['d'], 'precomputed_dict_order') if form == 'precomputed' else None,
                         cls=r.choice(['BayesianOptimization', 'BOLFI']), seed=r.randrange(2 ** 31),
                         via=r.choice(['infer', 'iterate']))
             self.bump('bo_init=' + form)
             self.bump('bo_async=%s' % case['async_acq'])
             self.bump('bo_maxp=%d' % maxp)
             self.bump('bo_acq=' + case['acq'])
+            self.bump('bo_target_model=' + case['tm'])
             yield case
         for i in range(n_grad):
             dim = r.choice([1, 2])
-            case = dict(kind='grad', dim=dim, bounds=self._box(r, dim), n_ev=r.choice([4, 7, 10]), seed=r.randrange(2 ** 31),
+            names = self._names(r, dim)
+            case = dict(kind='grad', dim=dim, names=names, dict_order=self._order(r, names), bounds=self._box(r, dim),
+                        n_ev=r.choice([4, 7, 10]), seed=r.randrange(2 ** 31),
                         t=r.choice([0, 1, 4, 20]), u=[r.random() for _ in range(dim)], exploration_rate=r.choice([10, 2, 100]))
             self.bump('grad')
+            yield case
+        # ---- histories of calls on ONE acquisition object over ONE surrogate that changes in between
+        for i in range(n_hist):
+            dim = r.choice([1, 2, 2, 3])
+            names = self._names(r, dim)
+            npts = r.choice([1, 2, 3])
+            pts = [[r.choice([0.0, 1.0, r.random(), r.random()]) for _ in range(dim)] for _ in range(npts)]
+            ops, last = [], None
+            for _ in range(r.choice([4, 6, 8])):
+                # a query, then (mostly) a change of the surrogate, then (mostly) a query at the SAME point
+                p = last if (last is not None and r.random() < 0.6) else r.randrange(npts)
+                t = r.choice([0, 1, 4, 20])
+                ops.append(dict(op='q', p=p, t=t, what=r.choice(['val', 'grad', 'valgrad', 'gradval'])))
+                self.bump('hist_query=' + ops[-1]['what'])
+                last = p
+                ch = r.choice(['update', 'update_opt', 'update_near', 'optimize', 'acquire', 'none', 'update'])
+                self.bump('hist_change=' + ch)
+                if ch.startswith('update'):
+                    ops.append(dict(op='update', k=r.choice([1, 2, 3]), optimize=(ch == 'update_opt'), near=(p if ch == 'update_near' else None),
+                                    seed=r.randrange(2 ** 31)))
+                elif ch == 'optimize':
+                    ops.append(dict(op='optimize'))
+                elif ch == 'acquire':
+                    ops.append(dict(op='acquire', n=r.choice([1, 2, 3]), t=r.choice([0, 2, 5])))
+            ops.append(dict(op='q', p=last, t=r.choice([0, 1, 4]), what=r.choice(['val', 'grad', 'valgrad', 'gradval'])))
+            nk, nz = self._noise(r, dim)
+            case = dict(kind='hist', dim=dim, names=names, dict_order=self._order(r, names), bounds=self._box(r, dim),
+                        n_ev=r.choice([4, 7, 10]), seed=r.randrange(2 ** 31), exploration_rate=r.choice([10, 2, 100]),
+                        noise=nz, noise_order=self._order(r, names, 'noise_dict_order') if isinstance(nz, list) else None,
+                        pts=pts, ops=ops)
+            self.bump('hist')
+            self.bump('dim=%d' % dim)
             yield case
         # ---- malformed stream: must be refused
         bad = ['noise_dict_missing', 'noise_negative', 'noise_dict_negative', 'noise_bad_type', 'init_negative', 'randmaxvar_n_too_big']
@@ -287,18 +391,27 @@ class C11(PropCheck):
         w = np.array([hi - lo for lo, hi in bounds])
         return NormalPrior(mid + case.get('prior_shift', 0.0) * w, case.get('prior_scale', 3.0) * w)
 
+    @staticmethod
+    def _noise_arg(case):
+        """noise_var as the user writes it: None / scalar / dict whose keys come in case['noise_order']"""
+        nz = case['noise']
+        if isinstance(nz, list):
+            by_name = dict(zip(case['names'], nz))
+            return {n: by_name[n] for n in case['noise_order']}
+        return nz
+
     def _run_acq(self, case):
         import elfi.methods.bo.acquisition as A
         bounds = case['bounds']
         dim = case['dim']
-        gp = make_gp(dim, bounds, case['n_ev'], case['seed'])
+        gp = make_gp(case, case['n_ev'], case['seed'])
         names = gp.parameter_names
         prior = self._prior(case, bounds)
         cls = case['cls']
         nz = case['noise']
         kw = dict(n_inits=3, max_opt_iters=30, seed=case['seed'] % 1000)
         if cls in ('lcbsc', 'lcbsc_prior'):
-            noise_var = dict(zip(names, nz)) if isinstance(nz, list) else nz
+            noise_var = self._noise_arg(case)
             m = A.LCBSC(gp, prior=(prior if cls == 'lcbsc_prior' else None), noise_var=noise_var, **kw)
         elif cls == 'maxvar':
             m = A.MaxVar(gp, prior, quantile_eps=0.2, **kw)
@@ -312,6 +425,7 @@ class C11(PropCheck):
         with Spy() as spy:
             out = np.array(m.acquire(case['n'], t=case['t']), dtype=float)
         return dict(out=out.tolist(), shape=list(out.shape), locs=[l.tolist() for l in spy.locs], vals=spy.vals,
+                    mbounds=[[float(b[0]), float(b[1])] for b in gp.bounds],
                     tn=[dict(a=np.broadcast_to(c['a'], c['out'].shape).tolist(), b=np.broadcast_to(c['b'], c['out'].shape).tolist(),
                              scale=c['scale'], out=c['out'].tolist()) for c in spy.tn])
 
@@ -329,7 +443,7 @@ class C11(PropCheck):
             loc, val = minimize(fun, [tuple(b) for b in case['bounds']], method=case['method'], grad=grad, prior=prior,
                                 n_start_points=case['n_start'], maxiter=50, random_state=np.random.RandomState(case['seed'] % 1000))
         return dict(out=[np.asarray(loc, dtype=float).tolist()], shape=[1, case['dim']], locs=[l.tolist() for l in spy.locs],
-                    vals=spy.vals, tn=[], val=float(val))
+                    vals=spy.vals, tn=[], val=float(val), mbounds=[[float(lo), float(hi)] for lo, hi in case['bounds']])
 
     def _bo_once(self, case, client, maxp, record):
         import elfi
@@ -337,21 +451,24 @@ class C11(PropCheck):
         import elfi.methods.bo.acquisition as A
         elfi.set_client(client)
         dim, bounds = case['dim'], case['bounds']
-        m = build_model(dim, bounds)
-        names = sorted('t%d' % (i + 1) for i in range(dim))
-        bdict = {n: tuple(b) for n, b in zip(names, bounds)}
+        names = list(case['names'])
+        m = build_model(names, bounds, case['create_order'])
+        assert m.parameter_names == names, (m.parameter_names, names)
+        bdict = user_dict(case)
         rs = np.random.RandomState(case['seed'] % 100000)
         init = case['init']
         pre_rows = []
         if case['form'] == 'precomputed':
             X = np.column_stack([rs.uniform(lo, hi, init) for lo, hi in bounds])
             Y = target_fn(X)
-            init_arg = {n: X[:, j].copy() for j, n in enumerate(names)}
-            init_arg['d'] = Y.copy()
+            cols = {n: X[:, j].copy() for j, n in enumerate(names)}
+            cols['d'] = Y.copy()
+            init_arg = {n: cols[n] for n in case['pre_order']}
             pre_rows = [(X[i].tolist(), float(Y[i])) for i in range(init)]
         else:
             init_arg = init
-        tm = GPyRegression(names, bounds=bdict, max_opt_iters=4)
+        # the surrogate is either built here from (parameter_names, the user's dict) or left to the method
+        tm = GPyRegression(names, bounds=bdict, max_opt_iters=4) if case['tm'] == 'given' else None
         kw = dict(n_inits=2, max_opt_iters=15, seed=case['seed'] % 1000)
         acq = None
         if case['acq'] == 'uniform':
@@ -360,17 +477,50 @@ class C11(PropCheck):
             acq = A.LCBSC(tm, noise_var=0, **kw)
         elif case['acq'] == 'lcbsc_noise':
             acq = A.LCBSC(tm, noise_var=0.05, **kw)
+        elif case['acq'] == 'lcbsc_prior':
+            # start points drawn from a prior much wider than the box are clipped onto its faces and recur
+            acq = A.LCBSC(tm, noise_var=0.02, prior=self._prior(dict(prior_shift=0.0, prior_scale=4.0), bounds), **kw)
+        if case['acq_noise'] == 'dict':
+            acq_noise = {n: v for n, v in zip(reversed(names), [0.01, 0.0, 0.2])}
+        else:
+            acq_noise = 0.01
         cls = getattr(elfi, case['cls'])
         SIMLOG.clear()
         bo = cls(m, 'd', bounds=bdict, initial_evidence=init_arg, update_interval=case['upd'], target_model=tm,
-                 acquisition_method=acq, acq_noise_var=0.01, batch_size=case['b'], batches_per_acquisition=case['bpa'],
+                 acquisition_method=acq, acq_noise_var=acq_noise, batch_size=case['b'], batches_per_acquisition=case['bpa'],
                  async_acq=case['async_acq'], max_parallel_batches=maxp, seed=case['seed'] % 100000)
         if hasattr(client, 'handler'):
             client.handler = bo.batches
+        if case['tm'] == 'default':
+            bo.target_model.max_opt_iters = 4
         if case['acq'] == 'default':
             bo.acquisition_method.n_inits = 2
             bo.acquisition_method.max_opt_iters = 15
         acqlog, optlog, supplied = [], [], {}
+        stale = dict(calls=0, bad=0, first=None)
+        if record and isinstance(bo.acquisition_method, A.LCBSC):
+            # every value / gradient the optimiser is given during the run must be the one of the CURRENT surrogate
+            am = bo.acquisition_method
+
+            def _wrap(name):
+                orig = getattr(am, name)
+
+                def f(x, t=None):
+                    got = orig(x, t)
+                    # a freshly constructed object has no history: its answer is the definition on the surrogate as it is now
+                    ref = getattr(A.LCBSC(am.model, exploration_rate=am.exploration_rate, seed=0), name)
+                    exp = ref(np.array(x, dtype=float, copy=True), t)
+                    stale['calls'] += 1
+                    g, e = np.asarray(got, dtype=float).reshape(-1), np.asarray(exp, dtype=float).reshape(-1)
+                    if g.shape != e.shape or not np.all(np.abs(g - e) <= 1e-9 * (1 + np.abs(e))):
+                        stale['bad'] += 1
+                        if stale['first'] is None:
+                            stale['first'] = dict(method=name, x=np.asarray(x, dtype=float).reshape(-1).tolist(), t=t,
+                                                  got=g.tolist(), current=e.tolist(), n_evidence=int(am.model.n_evidence))
+                    return got
+                setattr(am, name, f)
+            _wrap('evaluate')
+            _wrap('evaluate_gradient')
         if record:
             orig_acquire = bo.acquisition_method.acquire
 
@@ -418,7 +568,8 @@ class C11(PropCheck):
                     bpa=int(bo.batches_per_acquisition), acqlog=acqlog, optlog=optlog,
                     supplied=[[k, supplied[k]] for k in sorted(supplied)], pre=pre_rows,
                     sim=[[k, sim[k].tolist()] for k in sorted(sim)], n_sim_calls=len(SIMLOG),
-                    gp_n=int(gp.n_evidence), queue_left=len(bo.state['acquisition']))
+                    gp_n=int(gp.n_evidence), queue_left=len(bo.state['acquisition']),
+                    mbounds=[[float(b[0]), float(b[1])] for b in gp.bounds], tm_names=list(gp.parameter_names), stale=stale)
 
     def _run_bo(self, case):
         import elfi
@@ -452,7 +603,7 @@ class C11(PropCheck):
     def _run_grad(self, case):
         import elfi.methods.bo.acquisition as A
         bounds, dim = case['bounds'], case['dim']
-        gp = make_gp(dim, bounds, case['n_ev'], case['seed'])
+        gp = make_gp(case, case['n_ev'], case['seed'])
         x = np.array([[lo + u * (hi - lo) for (lo, hi), u in zip(bounds, case['u'])]])
         lc = A.LCBSC(gp, exploration_rate=case['exploration_rate'], seed=1)
         t = case['t']
@@ -482,10 +633,79 @@ class C11(PropCheck):
                     mv_grad=mv_grad.tolist(), fd_mv=fd_mv, mv_val=float(np.asarray(mv.evaluate(x)).reshape(-1)[0]),
                     sqrt=[[beta * var, float(np.sqrt(beta * var))], [beta / var, float(np.sqrt(beta / var))]])
 
+    def _run_hist(self, case):
+        """ONE LCBSC (and ONE MaxVar) object over ONE surrogate; between the queries the surrogate gets new evidence,
+        new hyper-parameters, or the object itself is asked to acquire.  Per query: what the surrogate says NOW
+        (asked directly), what the long-lived object answers, what a freshly constructed object answers."""
+        import elfi.methods.bo.acquisition as A
+        bounds, dim = case['bounds'], case['dim']
+        gp = make_gp(case, case['n_ev'], case['seed'])
+        er = case['exploration_rate']
+        lc = A.LCBSC(gp, exploration_rate=er, noise_var=self._noise_arg(case), n_inits=2, max_opt_iters=10, seed=case['seed'] % 1000)
+        prior = self._prior(dict(prior_shift=0.3, prior_scale=1.0), bounds)
+        mv = A.MaxVar(gp, prior, quantile_eps=0.3, seed=1)
+        mv.eps = float(np.percentile(gp.Y, 30))
+        pts = [np.array([[lo + u * (hi - lo) for (lo, hi), u in zip(bounds, p)]]) for p in case['pts']]
+        h = 1e-5
+        steps, acqs = [], []
+
+        def f1(v):
+            return float(np.asarray(v, dtype=float).reshape(-1)[0])
+
+        def vec(v):
+            return np.asarray(v, dtype=float).reshape(-1).tolist()
+        for op in case['ops']:
+            if op['op'] == 'update':
+                rs = np.random.RandomState(op['seed'])
+                k = op['k']
+                if op['near'] is None:
+                    X = np.column_stack([rs.uniform(lo, hi, k) for lo, hi in bounds])
+                else:
+                    w = np.array([hi - lo for lo, hi in bounds])
+                    X = pts[op['near']] + 0.05 * w * rs.randn(k, dim)
+                    X = np.column_stack([np.clip(X[:, j], *bounds[j]) for j in range(dim)])
+                Y = target_fn(X) + 0.05 * rs.randn(k)
+                gp.update(X, Y, optimize=op['optimize'])
+            elif op['op'] == 'optimize':
+                gp.optimize()
+            elif op['op'] == 'acquire':
+                out = np.array(lc.acquire(op['n'], t=op['t']), dtype=float)
+                acqs.append(dict(n=op['n'], shape=list(out.shape), out=out.tolist()))
+            else:
+                x, t = pts[op['p']], op['t']
+                beta = float(lc._beta(t))
+                mean, var = gp.predict(x.copy(), noiseless=True)
+                gm, gv = gp.predictive_gradients(x.copy())
+                mean, var = f1(mean), f1(var)
+                val = grad = mval = mgrad = None
+                for w in (('val', 'grad') if op['what'] == 'valgrad' else ('grad', 'val') if op['what'] == 'gradval' else (op['what'],)):
+                    if w == 'val':
+                        val = f1(lc.evaluate(x.copy(), t))
+                        mval = f1(mv.evaluate(x.copy()))
+                    else:
+                        grad = vec(lc.evaluate_gradient(x.copy(), t))
+                        mgrad = vec(mv.evaluate_gradient(x.copy()))
+                fresh = A.LCBSC(gp, exploration_rate=er, seed=1)
+                fval = f1(fresh.evaluate(x.copy(), t))
+                fgrad = vec(fresh.evaluate_gradient(x.copy(), t))
+                fd = []
+                for j in range(dim):
+                    e = np.zeros((1, dim))
+                    e[0, j] = h
+                    fd.append((f1(A.LCBSC(gp, exploration_rate=er, seed=1).evaluate(x + e, t))
+                               - f1(A.LCBSC(gp, exploration_rate=er, seed=1).evaluate(x - e, t))) / (2 * h))
+                mfresh = A.MaxVar(gp, prior, quantile_eps=0.3, seed=1)
+                mfresh.eps = mv.eps
+                steps.append(dict(p=op['p'], t=t, beta=beta, mean=mean, var=var, gm=vec(gm), gv=vec(gv), val=val, grad=grad,
+                                  fval=fval, fgrad=fgrad, fd=fd, n_evidence=int(gp.n_evidence),
+                                  sqrt=[[beta * var, float(np.sqrt(beta * var))], [beta / var, float(np.sqrt(beta / var))]],
+                                  mval=mval, mgrad=mgrad, mfval=f1(mfresh.evaluate(x.copy())), mfgrad=vec(mfresh.evaluate_gradient(x.copy()))))
+        return dict(steps=steps, acqs=acqs, mbounds=[[float(b[0]), float(b[1])] for b in gp.bounds])
+
     def _run_bad(self, case):
         import elfi
         import elfi.methods.bo.acquisition as A
-        gp = make_gp(2, [[0, 1], [0, 1]], 4, case['seed'])
+        gp = make_gp(dict(names=['t1', 't2'], bounds=[[0, 1], [0, 1]], dict_order=['t1', 't2']), 4, case['seed'])
         w = case['what']
         try:
             if w == 'noise_dict_missing':
@@ -497,7 +717,7 @@ class C11(PropCheck):
             elif w == 'noise_bad_type':
                 A.LCBSC(gp, noise_var=[0.1, 0.1])
             elif w == 'init_negative':
-                m = build_model(1, [[0, 1]])
+                m = build_model(['t1'], [[0, 1]])
                 elfi.BayesianOptimization(m, 'd', bounds={'t1': (0, 1)}, initial_evidence=-1)
             elif w == 'randmaxvar_n_too_big':
                 A.RandMaxVar(gp, NormalPrior([0.5, 0.5], [1, 1]), sampler='metropolis', n_samples=5).acquire(6)
@@ -521,7 +741,33 @@ class C11(PropCheck):
                 else:
                     continue
                 break
+        elif k == 'hist':
+            def same(a, b):
+                a, b = np.asarray(a, dtype=float).reshape(-1), np.asarray(b, dtype=float).reshape(-1)
+                return a.shape == b.shape and bool(np.all(np.abs(a - b) <= 1e-9 * (1 + np.abs(b))))
+            for i, st in enumerate(out['steps']):
+                if (st['val'] is not None and not same(st['val'], st['fval'])) or (st['grad'] is not None and not same(st['grad'], st['fgrad'])):
+                    f.append(('lcbsc_history_independent', 'query %d (point %d, %d evidence rows): the LCBSC object that was queried before the '
+                              'surrogate changed answers differently from a freshly constructed LCBSC on the same surrogate '
+                              '(see impl_output.steps[%d]: val/fval, grad/fgrad)' % (i, st['p'], st['n_evidence'], i)))
+                    break
+            for i, st in enumerate(out['steps']):
+                if (st['mval'] is not None and not same(st['mval'], st['mfval'])) or (st['mgrad'] is not None and not same(st['mgrad'], st['mfgrad'])):
+                    f.append(('maxvar_history_independent', 'query %d: the long-lived MaxVar object answers differently from a freshly '
+                              'constructed MaxVar (same eps) on the same surrogate (see impl_output.steps[%d]: mval/mfval, mgrad/mfgrad)' % (i, i)))
+                    break
+            for a in out['acqs']:
+                if a['shape'] != [a['n'], case['dim']] or not all(all(lo <= v <= hi for (lo, hi), v in zip(case['bounds'], row)) for row in a['out']):
+                    f.append(('history_acquire_in_bounds', 'an acquire call made after the surrogate changed returned a wrong number of points '
+                              'or a point outside the user bounds (see impl_output.acqs)'))
+                    break
         elif k == 'bo':
+            if out['stale']['bad']:
+                f.append(('bo_acquisition_on_current_surrogate', '%d of %d LCBSC evaluate/evaluate_gradient calls made by the optimiser during the '
+                          'run differ from a freshly constructed LCBSC on the surrogate as it was at the call (see impl_output.stale.first)'
+                          % (out['stale']['bad'], out['stale']['calls'])))
+            if out['tm_names'] != list(case['names']):
+                f.append(('target_model_names', 'target_model.parameter_names differ from model.parameter_names'))
             if out['leftover']:
                 f.append(('no_task_left', 'tasks left in the client after the inference returned'))
             if out['problems']:
@@ -568,6 +814,11 @@ class C11(PropCheck):
         elif k == 'bo':
             if not out['acqlog'] or all(out['answers']):
                 return None
+        elif k == 'hist':
+            # some query repeats the previous query's point on a surrogate that has more evidence or was re-optimised
+            qs = [o for o in case['ops'] if o['op'] != 'acquire']
+            if not any(a['op'] == 'q' and b['op'] != 'q' and c['op'] == 'q' and a['p'] == c['p'] for a, b, c in zip(qs, qs[1:], qs[2:])):
+                return None
         elif k == 'bad':
             return None
         return json.dumps(case, sort_keys=True)
@@ -611,9 +862,9 @@ class C11(PropCheck):
             if calls:
                 return None   # more sampler calls than noisy columns: left to the python clauses (cannot happen for the coded loop)
             uni = crows(out['out']) if cls == 'uniform' else '[]'
-            return ('(CAcq {| a_kind := %s; a_bounds := %s; a_n := %s; a_locs := %s; a_vals := %s; a_sqrt := %s; a_tn := %s; '
+            return ('(CAcq {| a_kind := %s; a_names := %s; a_dict := %s; a_mbounds := %s; a_n := %s; a_locs := %s; a_vals := %s; a_sqrt := %s; a_tn := %s; '
                     'a_tn_ab := %s; a_uni := %s; a_out := %s |})'
-                    % (kind, cbox(case['bounds']), cnat(case.get('n', 1)), crows(out['locs']), clist([cq(v) for v in out['vals']]),
+                    % (kind, cnames(case['names']), cdict(case), cbox(out['mbounds']), cnat(case.get('n', 1)), crows(out['locs']), clist([cq(v) for v in out['vals']]),
                        sq, clist(tn_cols), clist(ab_cols), uni, crows(out['out'])))
         if k == 'bo':
             cfg = ('{| c_b := %s; c_bpa := %s; c_ninit := %s; c_npre := %s; c_upd := %s; c_async := %s; c_nev := %s |}'
@@ -628,10 +879,11 @@ class C11(PropCheck):
                 batches.append(clist([cerow(r, y) for r, y in zip(rows, ys)]))
             sup = clist(['(%s, %s)' % (cnat(i), 'None' if rows is None else '(Some %s)' % crows(rows)) for i, rows in out['supplied']])
             alog = clist(['(%s, %s, %s, %s)' % (cnat(a['i']), cnat(a['n']), cz(a['t']), cnat(a['cnt'])) for a in out['acqlog']])
-            return ('(CBo {| k_cfg := %s; k_maxp := %s; k_bounds := %s; k_pre := %s; k_oracle := %s; k_acq_tab := %s; k_batches := %s; '
+            return ('(CBo {| k_cfg := %s; k_maxp := %s; k_names := %s; k_dict := %s; k_mbounds := %s; k_pre := %s; k_oracle := %s; k_acq_tab := %s; k_batches := %s; '
                     'k_trace := %s; k_X := %s; k_nev := %s; k_nbatches := %s; k_lastgp := %s; k_acqlog := %s; k_optlog := %s; '
                     'k_supplied := %s |})'
-                    % (cfg, cnat(case['maxp']), cbox(case['bounds']), clist([cerow(p, y) for p, y in out['pre']]),
+                    % (cfg, cnat(case['maxp']), cnames(case['names']), cdict(case), cbox(out['mbounds']),
+                       clist([cerow(p, y) for p, y in out['pre']]),
                        clist([cbool(a) for a in out['answers']]), clist([crows(a['x']) for a in out['acqlog']]), clist(batches),
                        clist(out['events']), clist([cerow(x, y) for x, y in zip(out['X'], out['Y'])]), cz(out['n_evidence']),
                        cnat(out['n_batches']), cz(out['last_gp']), alog, clist([cbool(o) for o in out['optlog']]), sup))
@@ -643,6 +895,19 @@ class C11(PropCheck):
                              % (cq(out['beta']), cq(out['mean']), cq(out['var']), cq(out['gm'][j]), cq(out['gv'][j]),
                                 clist(['(%s, %s)' % (cq(a), cq(b)) for a, b in out['sqrt']]), cq(out['val']), cq(out['grad'][j])))
             return terms[case['seed'] % len(terms)]
+        if k == 'hist':
+            if any(len(a['shape']) != 2 for a in out['acqs']):
+                return None
+            steps = []
+            for st in out['steps']:
+                steps.append('{| h_beta := %s; h_mean := %s; h_var := %s; h_gmean := %s; h_gvar := %s; h_sqrt := %s; h_val := %s; '
+                             'h_grad := %s; h_fval := %s; h_fgrad := %s; h_fd := %s |}'
+                             % (cq(st['beta']), cq(st['mean']), cq(st['var']), crow(st['gm']), crow(st['gv']),
+                                clist(['(%s, %s)' % (cq(a), cq(b)) for a, b in st['sqrt']]),
+                                copt(st['val'], cq), copt(st['grad'], crow), cq(st['fval']), crow(st['fgrad']), crow(st['fd'])))
+            return ('(CHist {| hs_names := %s; hs_dict := %s; hs_mbounds := %s; hs_steps := %s; hs_acq := %s |})'
+                    % (cnames(case['names']), cdict(case), cbox(out['mbounds']), clist(steps),
+                       clist(['(%s, %s)' % (cnat(a['n']), crows(a['out'])) for a in out['acqs']])))
         return None
 
 
